@@ -97,6 +97,15 @@ Proof.
         apply (IH (S todo') i _ h' acc k R2). cbn. cbn in Hf. lia.
     + (* take min(avail, todo) bytes *)
       set (m := Nat.min (length (x :: l)) (S todo')).
+      assert (Ef : firstn (S todo') (x :: l) = firstn m (x :: l)).
+      { unfold m. destruct (Nat.le_ge_cases (length (x :: l)) (S todo')) as [Hle|Hge].
+        - rewrite Nat.min_l by exact Hle. rewrite !firstn_all2; [reflexivity|lia|exact Hle].
+        - rewrite Nat.min_r by exact Hge. reflexivity. }
+      assert (Es : skipn (S todo') (x :: l) = skipn m (x :: l)).
+      { unfold m. destruct (Nat.le_ge_cases (length (x :: l)) (S todo')) as [Hle|Hge].
+        - rewrite Nat.min_l by exact Hle. rewrite !skipn_all2; [reflexivity|lia|exact Hle].
+        - rewrite Nat.min_r by exact Hge. reflexivity. }
+      rewrite Ef, Es, rev_append_rev. replace (length (firstn m (x :: l))) with m by (rewrite firstn_length; unfold m; lia).
       assert (Hm : (1 <= m <= S todo')%nat) by (unfold m; cbn [length]; lia).
       destruct HR as (Hr & Ho & He & Hs). rewrite Eb in Hr.
       rewrite (ideal_take_chunk (firstn m (x :: l)) (S todo') i acc
